@@ -48,6 +48,10 @@ fn go<T: Scalar, const D: usize>(h: &C07, out: &mut Outcome<T>) {
     };
     let ne = g.ne();
     let (zero, one) = (T::rat(0, 1), T::rat(1, 1));
+    // used only to decide path feasibility cheaply (the log-space goals below see the real terms)
+    for (e, xe) in sec.x.iter().enumerate() {
+        out.cut(*xe, format!("X{}", e), &["(> {} 0.0)"]);
+    }
     if std::env::var("SYMX_TRACE").is_ok() {
         eprintln!("TRACE order {:?} xt {:?}", sec.order, sec.xt.iter().map(|v| v.sym_id()).collect::<Vec<_>>());
     }
@@ -66,7 +70,7 @@ fn go<T: Scalar, const D: usize>(h: &C07, out: &mut Outcome<T>) {
             kappa = kappa * p;
         }
     }
-    out.twin_opaque("twin: x~ of the last removed edge = 1", sec.xt[*sec.order.last().unwrap()], Rel::Eq, one);
+    out.twin_log("twin: x~ of the last removed edge = 1", sec.xt[*sec.order.last().unwrap()], Rel::Eq, one);
     // (ii) the reported tropical polynomials are the largest monomials of U and of F (u_trop*v_trop) at x~
     let _ = &pows;
     let um = oracle::u_monomials(&g);
@@ -90,7 +94,7 @@ fn go<T: Scalar, const D: usize>(h: &C07, out: &mut Outcome<T>) {
         }
         {
             let last = sec.xt[*sec.order.last().unwrap()];
-            out.twin_opaque("twin: v_trop = (x~ of the last removed edge)^2", sec.vt, Rel::Eq, last * last);
+            out.twin_log("twin: v_trop = (x~ of the last removed edge)^2", sec.vt, Rel::Eq, last * last);
         }
     }
     // (iii) common rescaling, and U_tr^(D/2) V_tr^dod = 1 afterwards
